@@ -19,11 +19,19 @@ use {
 
 static SEQ: AtomicU64 = AtomicU64::new(0);
 static SINK: Mutex<Option<Vec<Value>>> = Mutex::new(None);
+static ECHO: std::sync::atomic::AtomicBool = std::sync::atomic::AtomicBool::new(false);
 static CRASH_COUNTS: Mutex<BTreeMap<String, u64>> = Mutex::new(BTreeMap::new());
 
 /// Install an empty event sink; events are recorded until `take`.
 pub fn start() {
   *SINK.lock().unwrap() = Some(Vec::new());
+}
+
+/// Install a sink and also print every event to stdout as it is recorded
+/// (used by child processes that are about to be aborted at a crash point).
+pub fn start_echo() {
+  ECHO.store(true, Ordering::SeqCst);
+  start();
 }
 
 /// Remove the sink and return the recorded events.
@@ -48,6 +56,11 @@ pub fn emit(name: &str, fields: Value) {
       for (key, value) in fields {
         event.insert(key.clone(), value.clone());
       }
+    }
+    if ECHO.load(Ordering::SeqCst) {
+      use std::io::Write;
+      println!("{event}");
+      let _ = std::io::stdout().flush();
     }
     events.push(event);
   }
